@@ -1,5 +1,203 @@
-import Luqum.Model.Naming
+/-
+  C16 — Match propagation marks a sub-expression as matching exactly when it is true.
+
+  `MatchingPropagator` (`luqum.naming`) receives, for each named element of a query (the names are
+  those `auto_name` gives: the direct operands of the operations, or the root when there is no
+  operation), whether the term it covers matched, and classifies every sub-expression as matching
+  or not. `propagate_correct`: every sub-expression of the query — other than the bounds of a range
+  and the term inside a fuzzy / proximity, which are never visited — is classified exactly once, as
+  matching precisely when it evaluates to true under the boolean semantics `evalT`:
+  AND = all, OR = any, implicit operation = the configured default operation, `NOT` and `-` =
+  negation, every other construct = the value of its operand.
+  Quantified over all trees (satisfying `good`) × all truth assignments × both default operations.
+
+  Hypotheses on the tree (`good false t`, all of them necessary, see `good` and the `example`s at
+  the end of the file):
+  * no negation lies STRICTLY between a named element and the term it covers (a negation that is
+    itself the named element is fine);
+  * no operation inside a `Range` / `Fuzzy` / `Proximity`. Counterexample otherwise:
+    `t = .range (.op .and [a, b]) c`: `named t = [[0,0],[0,1]]`, the root is term-like but neither it
+    nor an ancestor is named, `_status_from_parent` answers false whatever `τ []` is;
+  * no operation without operands and no `NoneItem` (they are not term-like, yet their status is the
+    inherited one), no `BoolOperation` (it has no all / any meaning; the implementation treats it
+    as a conjunction, and so does `evalT`, but this is not claimed).
+
+  Layout: the definitions used in the statements are in `Luqum.Lemmas.PropagateDefs` (re-exported
+  here), the proof in `Luqum.Lemmas.Propagate` (`propagate_spec`, for any class tuples satisfying
+  `CfgSpec`). The only facts about the GENERATED class tuples are the theorems of Part A below: when
+  the Python source changes one of the tuples, exactly the corresponding theorem fails.
+-/
+import Luqum.Lemmas.Propagate
+
 namespace Luqum.Props.C16
-open Luqum
-theorem first_name : nextName none = some ['a'] := by decide
+open Luqum Luqum.Lemmas.NamedPaths
+
+export Luqum.Lemmas.Propagate (isOrNode isNeg isAtomic isTermLike evalT evalTs cover negFree opFree
+  good goods visible coverVal)
+
+/-! ### Part A — the generated class tuples -/
+
+/-- `OR_NODES` with default operation OR: `OrOperation` and `UnknownOperation` -/
+theorem orNodes_defaultOr (t : Tree) :
+    isInstanceOf Generated.orNodesDefaultOr t = isOrNode true t := by
+  cases t with
+  | term k => cases k <;> rfl
+  | group k => cases k <;> rfl
+  | approx k => cases k <;> rfl
+  | op k => cases k <;> rfl
+  | unary k => cases k <;> rfl
+  | orange k => cases k <;> rfl
+  | _ => rfl
+
+/-- `OR_NODES` with default operation AND: `OrOperation` only -/
+theorem orNodes_defaultAnd (t : Tree) :
+    isInstanceOf Generated.orNodesDefaultAnd t = isOrNode false t := by
+  cases t with
+  | term k => cases k <;> rfl
+  | group k => cases k <;> rfl
+  | approx k => cases k <;> rfl
+  | op k => cases k <;> rfl
+  | unary k => cases k <;> rfl
+  | orange k => cases k <;> rfl
+  | _ => rfl
+
+/-- the disjunctions of the propagator configured with a default operation -/
+theorem isInstanceOf_orNodes (defaultOr : Bool) (t : Tree) :
+    isInstanceOf (propCfg defaultOr).orNodes t = isOrNode defaultOr t := by
+  cases defaultOr
+  · exact orNodes_defaultAnd t
+  · exact orNodes_defaultOr t
+
+/-- `NEGATION_NODES`: exactly `Not` and `Prohibit` -/
+theorem negationNodes_spec (t : Tree) : isInstanceOf Generated.negationNodes t = isNeg t := by
+  cases t with
+  | term k => cases k <;> rfl
+  | group k => cases k <;> rfl
+  | approx k => cases k <;> rfl
+  | op k => cases k <;> rfl
+  | unary k => cases k <;> rfl
+  | orange k => cases k <;> rfl
+  | _ => rfl
+
+theorem isInstanceOf_negNodes (defaultOr : Bool) (t : Tree) :
+    isInstanceOf (propCfg defaultOr).negNodes t = isNeg t := negationNodes_spec t
+
+/-- `NO_CHILDREN_PROPAGATE`: exactly `Range`, `Fuzzy`, `Proximity` -/
+theorem noChildrenPropagate_spec (t : Tree) :
+    isInstanceOf Generated.noChildrenPropagate t = isAtomic t := by
+  cases t with
+  | term k => cases k <;> rfl
+  | group k => cases k <;> rfl
+  | approx k => cases k <;> rfl
+  | op k => cases k <;> rfl
+  | unary k => cases k <;> rfl
+  | orange k => cases k <;> rfl
+  | _ => rfl
+
+theorem isInstanceOf_noDescend (defaultOr : Bool) (t : Tree) :
+    isInstanceOf (propCfg defaultOr).noDescend t = isAtomic t := noChildrenPropagate_spec t
+
+/-- the class tests of the propagator are the pattern matchings `isOrNode`, `isNeg`, `isAtomic` -/
+theorem propCfg_spec (defaultOr : Bool) : Lemmas.Propagate.CfgSpec (propCfg defaultOr) defaultOr :=
+  ⟨isInstanceOf_orNodes defaultOr, isInstanceOf_negNodes defaultOr, isInstanceOf_noDescend defaultOr⟩
+
+/-! ### Part B — correctness of the propagation -/
+
+/-- meaning of `cover`: the path it returns leads to a term-like node (`Term`, `Range`,
+`BaseApprox`) -/
+theorem cover_spec : ∀ (t : Tree) (c : List Nat), cover t = some c →
+    ∃ n, t.at? c = some n ∧ isTermLike n = true
+  | .term k v l, c, h => by simp [cover] at h; subst h; exact ⟨_, at?_nil _, rfl⟩
+  | .range a b il ih l, c, h => by simp [cover] at h; subst h; exact ⟨_, at?_nil _, rfl⟩
+  | .approx k e n l, c, h => by simp [cover] at h; subst h; exact ⟨_, at?_nil _, rfl⟩
+  | .none _, c, h => by simp [cover] at h
+  | .op .., c, h => by simp [cover] at h
+  | .field _ e _, c, h => by
+      simp [cover] at h; obtain ⟨c', hc', rfl⟩ := h
+      obtain ⟨n, h1, h2⟩ := cover_spec e c' hc'
+      exact ⟨n, by simp [at?_cons, Tree.children, h1], h2⟩
+  | .group _ e _, c, h => by
+      simp [cover] at h; obtain ⟨c', hc', rfl⟩ := h
+      obtain ⟨n, h1, h2⟩ := cover_spec e c' hc'
+      exact ⟨n, by simp [at?_cons, Tree.children, h1], h2⟩
+  | .boost e _ _, c, h => by
+      simp [cover] at h; obtain ⟨c', hc', rfl⟩ := h
+      obtain ⟨n, h1, h2⟩ := cover_spec e c' hc'
+      exact ⟨n, by simp [at?_cons, Tree.children, h1], h2⟩
+  | .unary _ e _, c, h => by
+      simp [cover] at h; obtain ⟨c', hc', rfl⟩ := h
+      obtain ⟨n, h1, h2⟩ := cover_spec e c' hc'
+      exact ⟨n, by simp [at?_cons, Tree.children, h1], h2⟩
+  | .orange _ e _ _, c, h => by
+      simp [cover] at h; obtain ⟨c', hc', rfl⟩ := h
+      obtain ⟨n, h1, h2⟩ := cover_spec e c' hc'
+      exact ⟨n, by simp [at?_cons, Tree.children, h1], h2⟩
+
+/-- **C16.** Let `t` satisfy the tree hypotheses, `τ` be any truth assignment of the term-like
+nodes, and `matching` / `other` list the named elements (as named by `auto_name`) whose covered term
+is true / is not. Then `_propagate` (with either default operation)
+* returns the boolean value of the query;
+* classifies each visited sub-expression (`visible`) as ok iff its value is true, as ko iff its
+  value is false;
+* classifies nothing else;
+* classifies nothing twice (no duplicate in the two lists together: none in each, and they are
+  disjoint). -/
+theorem propagate_correct (defaultOr : Bool) (τ : List Nat → Bool) (t : Tree)
+    (hg : good false t = true) (matching other : List (List Nat))
+    (hm : ∀ p, p ∈ matching ↔ p ∈ named t ∧ coverVal τ t p = true)
+    (ho : ∀ p, p ∈ other ↔ p ∈ named t ∧ coverVal τ t p = false) :
+    let r := propagate (propCfg defaultOr) matching other [] t
+    r.1 = evalT defaultOr τ [] t ∧
+    (∀ p n, t.at? p = some n → visible t p = true →
+        (p ∈ r.2.1 ↔ evalT defaultOr τ p n = true) ∧ (p ∈ r.2.2 ↔ evalT defaultOr τ p n = false)) ∧
+    (∀ p, p ∈ r.2.1 ++ r.2.2 → visible t p = true ∧ ∃ n, t.at? p = some n) ∧
+    (r.2.1 ++ r.2.2).Pairwise (· ≠ ·) :=
+  Lemmas.Propagate.propagate_spec (propCfg_spec defaultOr) τ t hg matching other ⟨hm, ho⟩
+
+/-! ### non-vacuity and necessity of the hypotheses -/
+
+section Examples
+
+private def w (s : String) : Tree := .term .word s.toList {}
+
+/-- `a AND (NOT b)` -/
+private def q1 : Tree := .op .and [w "a", .unary .not (w "b") {}] {}
+
+example : good false q1 = true := by decide
+example : named q1 = [[0], [1]] := by decide
+/-- the named negation `NOT b` covers `b` -/
+example : (q1.at? [1]).bind cover = some [0] := by decide
+/-- `a` and `b` both match: `matching = [[0], [1]]`; the query is false, `a` and `b` are ok -/
+example : propagate (propCfg false) [[0], [1]] [] [] q1 = (false, [[0], [1, 0]], [[1], []]) := by
+  decide
+example : evalT false (fun _ => true) [] q1 = false := by decide
+/-- only `a` matches: the query is true, everything but `b` is ok -/
+example : propagate (propCfg false) [[0]] [[1]] [] q1 = (true, [[0], [1], []], [[1, 0]]) := by decide
+
+/-- a query without operation: the root is the named element; `-(x:a~2)` -/
+private def q2 : Tree := .unary .prohibit (.group .group (.field "x".toList (.approx .fuzzy (w "a") {} {}) {}) {}) {}
+
+example : good false q2 = true := by decide
+example : named q2 = [[]] := by decide
+example : propagate (propCfg true) [[]] [] [] q2 = (false, [[0, 0, 0], [0, 0], [0]], [[]]) := by
+  decide
+
+/-- necessity of "no negation strictly below a named element": `(NOT a) OR b`; when `a` matches,
+the group (named, covering `a`) is reported ok although its value is false -/
+private def bad1 : Tree := .op .or [.group .group (.unary .not (w "a") {}) {}, w "b"] {}
+
+example : good false bad1 = false := by decide
+example : (propagate (propCfg true) [[0]] [[1]] [] bad1).1 = true ∧
+    evalT true (fun p => p == [0, 0, 0]) [] bad1 = false := by decide
+
+/-- necessity of "no operation inside a range": the root is term-like and true, nothing names it -/
+private def bad2 : Tree := .range (.op .and [w "a", w "b"] {}) (w "c") true true {}
+
+example : good false bad2 = false := by decide
+example : named bad2 = [[0, 0], [0, 1]] := by decide
+example : (propagate (propCfg true) [] [[0, 0], [0, 1]] [] bad2).1 = false ∧
+    evalT true (fun p => p == []) [] bad2 = true := by decide
+
+end Examples
+
 end Luqum.Props.C16
